@@ -373,6 +373,18 @@ func c10DumpWidthMax(ru *fw.Rule, p *fw.Program, sum ssa.Value, denv *fw.PolyEnv
 			}
 		}
 	}
+	// every value the pre-pass visits is measured: no return of the callback precedes the measurement (a value
+	// that is skipped - e.g. the displayed value itself when it is an array element past array_truncate -
+	// leaves the column too narrow, or zero wide, for the addresses printed in it)
+	if si, ok := sum.(ssa.Instruction); ok && si.Parent() != nil {
+		early := ""
+		fw.EachInstr(si.Parent(), func(ins ssa.Instruction) {
+			if ret, ok := ins.(*ssa.Return); ok && !(si.Block() == ret.Block() || si.Block().Dominates(ret.Block())) {
+				early = p.Rel(ret.Pos())
+			}
+		})
+		ru.Check(early == "", "digits:every-value", pos, "the pre-pass measures every value it visits", "the width pre-pass callback can return (at "+early+") before it measured the value it was called for: values it skips are still displayed (the top value is always shown), and their addresses do not fit the column sized without them")
+	}
 	ru.Check(good, "digits:max", pos, "the address column width is the maximum over all values of indent + digits", "the width pre-pass does not keep the maximum of (indent + address digits) over the walked values: the address column is sized for another value than the widest and longer addresses are cut by FlushLine")
 }
 
